@@ -53,6 +53,14 @@ RULE_SCHED = ("each run is one seeded schedule+workload drawn from the choice ta
               "fired faults, fired events) among non-trivial runs")
 
 CHECKS = {
+    "C08": {
+        "claim": "a hostile peer drives some legal traffic (so that the tables are non-empty) and then emits 1-3 hostile messages per run out of 22 kinds: Returns / Finishes / Releases / Disembargoes for unknown, reused or finished ids, calls to unknown imports and finished answers, descriptors naming non-existent exports and imports, odd transforms, sendResultsTo=yourself, unknown union discriminants, unsupported level-2+ messages, unsolicited Unimplemented and Abort, odd payload contents, and bit flips / hostile pointer words inside valid Calls; local callers keep calls in flight; no panic, no process abort, no deadlock, every local call completes, and if the connection is still up afterwards a well-formed Bootstrap must be answered (not wedged); Close returns and leaks nothing",
+        "engine": "rpcsim", "level": "exploration",
+        "budget": {"quick": 30, "thorough": 900},
+        "rule": RULE_SCHED,
+        "faults": ["hostile_message", "ctx_cancel"],
+        "params": {"mode": "hostile"},
+    },
     "C09": {
         "claim": "two-stage per-operation fault sweep made possible by deterministic replay: each scenario (a seed of the C06/C07 workload) is first run fault-free to count its transport operations and steps, then re-run once for every NewMessage / send / receive index with each fault kind (error on NewMessage, error on send, stalled send, receive error, EOF) and, at up to 60 evenly spaced steps, with Close, Close twice followed by new operations, and cancellation of every outstanding call; every run must finish all its operations, Close must return, no goroutine started by the connection may survive, no mutex nor the sender lock may stay held, nothing may panic",
         "engine": "rpcsim", "level": "fault_enumeration",
